@@ -337,6 +337,20 @@ def builders(model):
         I, 'Gradient', D(), range=wps(D()))
     B['Divergence[weighted product-space domain]'] = lambda I, S: inst(
         I, 'Divergence', domain=wps(D()), range=D())
+    # resizing operators between uniformly discretized spaces with equal
+    # cell sides (the offset is what C16-R4b proves _offset_from_spaces to
+    # return for the range; it is attached to the range space here)
+    def RZ(I, shape_out, off, **kw):
+        ran = D(shape=shape_out)
+        ran.resize_offset = tuple(off)
+        return inst(I, 'ResizingOperator', D(), ran, **kw)
+    for pm in ('constant', 'symmetric', 'periodic', 'order0', 'order1'):
+        B['ResizingOperator[4x3 -> 6x5,%s]' % pm] = (
+            lambda I, S, pm=pm: RZ(I, (6, 5), (1, 1), pad_mode=pm))
+        B['ResizingOperator[4x3 -> 2x3,%s]' % pm] = (
+            lambda I, S, pm=pm: RZ(I, (2, 3), (1, 0), pad_mode=pm))
+    B['ResizingOperator[4x3 -> 5x2,order0]'] = (
+        lambda I, S: RZ(I, (5, 2), (1, 1), pad_mode='order0'))
     # compositions whose left factor is not safe for aliased evaluation
     B['expr:PartialDerivative(axis 0) o PartialDerivative(axis 1)'] = (
         lambda I, S: I.binop(ast.Mult, inst(I, 'PartialDerivative', D(), 0),
@@ -452,6 +466,10 @@ class H5(SMHooks):
                            ndim=len(obj.shape))
             if name == 'tspace':
                 return Rec('tspace', impl='numpy')
+            if name == 'is_uniform_byaxis':
+                return (True,) * len(obj.shape)
+            if name == 'is_uniform':
+                return True
         if isinstance(obj, Rec) and name in obj.attrs:
             return obj.attrs[name]
         return SMHooks.on_getattr(self, interp, obj, name)
@@ -481,6 +499,13 @@ class H5(SMHooks):
             return DT('float32' if d in (_np.dtype('float32'),
                                          _np.dtype('complex64'))
                       else 'float64')
+        if isinstance(f, Func) and nm == '_offset_from_spaces' and \
+                getattr(args[1], 'resize_offset', None) is not None:
+            return tuple(args[1].resize_offset)
+        if isinstance(f, Func) and nm == 'normalized_scalar_param_list' \
+                and len(args) >= 2 and not kwargs.get('keep_none'):
+            p, n = args[0], args[1]
+            return list(p) if isinstance(p, (list, tuple)) else [p] * n
         if isinstance(f, Func) and nm == 'uniform_discr':
             # uniform_discr([0] * n, shape - 1, shape, dtype, impl,
             # nodes_on_bdry=True): unit cells, default weighting 1
